@@ -25,11 +25,16 @@ pub struct SinkPlan {
     /// sink recovers and accepts later chunks — which exposes an implementation
     /// that ignores the error and carries on)
     pub sticky: bool,
+    /// re-entrancy: while handling its first chunk the sink itself formats another TwoFloat
+    /// (this high word, zero low word) with `{}` into a scratch string — what a logging or
+    /// tee-ing writer may do. It must not disturb the outer rendering.
+    #[serde(default, skip_serializing_if = "Option::is_none")]
+    pub reentrant_hi: Option<String>,
 }
 
 impl SinkPlan {
     pub fn is_faulty(&self) -> bool {
-        self.fail_at_chunk.is_some() || self.capacity.is_some()
+        self.fail_at_chunk.is_some() || self.capacity.is_some() || self.reentrant_hi.is_some()
     }
 }
 
@@ -71,6 +76,9 @@ pub struct SimSink<'a> {
     pub fired_capacity: bool,
     pub dead: bool,
     pub writes_after_refusal: u64,
+    pub reentered: bool,
+    /// (high word, fmt result ok, text) of the rendering the sink made re-entrantly
+    pub reentered_output: Option<(u64, bool, String)>,
     pub log: Hash64,
     pub sig: Hash64,
 }
@@ -85,6 +93,8 @@ impl<'a> SimSink<'a> {
             fired_capacity: false,
             dead: false,
             writes_after_refusal: 0,
+            reentered: false,
+            reentered_output: None,
             log: Hash64::default(),
             sig: Hash64::default(),
         }
@@ -102,6 +112,17 @@ impl Write for SimSink<'_> {
             panic!("simulator step cap exceeded in sink");
         }
         self.log.str(s);
+        if idx == 0 {
+            if let Some(h) = self.plan.reentrant_hi.as_deref().and_then(|t| crate::values::parse_hex(t).ok()) {
+                if f64::from_bits(h).is_finite() {
+                    let inner = raw_twofloat(h, 0);
+                    let mut scratch = String::new();
+                    let r = write!(scratch, "{}", inner);
+                    self.reentered = true;
+                    self.reentered_output = Some((h, r.is_ok(), scratch));
+                }
+            }
+        }
         if self.fired() {
             self.writes_after_refusal += 1;
         }
@@ -488,6 +509,23 @@ pub fn execute(c: &FmtCase) -> LegReport {
         if sink.fired_capacity {
             rep.faults_fired.hit(if c.sink.sticky { "sink_capacity_sticky" } else { "sink_capacity_transient" });
         }
+        if sink.reentered {
+            rep.probes.hit("sink_reentrant_formatting");
+        }
+        // the rendering made re-entrantly from inside the sink is held to the same oracle
+        if let Some((h, ok, text)) = sink.reentered_output.take() {
+            let inner = FmtCase { hi: h, lo: 0, tr: Tr::Display, plus: false, prec: None, sink: SinkPlan::default(), io: None, flags: None };
+            if !ok {
+                rep.violations.push(viol("FMT_SPURIOUS_ERR", "a rendering made re-entrantly from inside the sink (into a String) returned Err"));
+            } else {
+                let mut v = Vec::new();
+                check_content(&inner, &text, &mut v, &mut rep.probes);
+                for mut x in v {
+                    x.detail = format!("re-entrant rendering from inside the sink: {}", x.detail);
+                    rep.violations.push(x);
+                }
+            }
+        }
         match r {
             Err(msg) => rep.violations.push(viol("PANIC", format!("fmt panicked under sink fault: {msg}"))),
             Ok(res) => {
@@ -567,7 +605,19 @@ pub fn generate(r: &mut Rng, hi: u64, lo: u64) -> FmtCase {
     };
     // now and then a very large precision: fixed-size render buffers and precision clamps above the
     // usual range must not go unnoticed
-    let prec = if r.chance(1, 400) { Some(*r.pick(&[3000usize, 10_000, 30_000])) } else { prec };
+    // (65 535 is avoided: `format!("{:.65535e}", 1.5f64)` panics inside std itself)
+    let prec = if r.chance(1, 300) {
+        Some(match r.below(3) {
+            0 => *r.pick(&[3000usize, 10_000, 30_000]),
+            1 => *r.pick(&[2047usize, 2048, 4095, 4096, 8191, 8192, 16_383, 16_384, 32_767, 32_768, 65_534]),
+            _ => {
+                let bits = r.range(11, 15);
+                ((1u64 << bits) + r.below(1u64 << bits)).min(65_534) as usize
+            }
+        })
+    } else {
+        prec
+    };
     // Bias towards the precision at which a word is an exact decimal tie (a
     // dyadic rational with f fractional bits ties at precision f - 1): that is
     // where a wrong rounding mode shows.
@@ -640,14 +690,23 @@ pub fn generate(r: &mut Rng, hi: u64, lo: u64) -> FmtCase {
         Err(_) => (1, 1),
     };
     let sticky = r.bool();
+    if r.chance(1, 10) {
+        // a re-entrant sink, with or without a fault of its own
+        c.sink.reentrant_hi = Some(crate::values::hex(if r.bool() { hi } else { 1.0f64.to_bits() }));
+        if r.bool() {
+            return c;
+        }
+    }
+    let reentrant = c.sink.reentrant_hi.clone();
     match r.below(3) {
-        0 => c.sink = SinkPlan { fail_at_chunk: Some(r.usize_below(nchunks)), capacity: None, sticky },
-        1 => c.sink = SinkPlan { fail_at_chunk: None, capacity: Some(r.usize_below(nbytes)), sticky },
+        0 => c.sink = SinkPlan { fail_at_chunk: Some(r.usize_below(nchunks)), capacity: None, sticky, reentrant_hi: reentrant.clone() },
+        1 => c.sink = SinkPlan { fail_at_chunk: None, capacity: Some(r.usize_below(nbytes)), sticky, reentrant_hi: reentrant.clone() },
         _ => {
             c.sink = SinkPlan {
                 fail_at_chunk: Some(r.usize_below(nchunks)),
                 capacity: Some(r.usize_below(nbytes)),
                 sticky,
+                reentrant_hi: reentrant,
             }
         }
     }
@@ -707,6 +766,7 @@ pub fn shrink(c: &FmtCase) -> Vec<FmtCase> {
         });
     }
     push(&|d| d.sink = SinkPlan::default());
+    push(&|d| d.sink.reentrant_hi = None);
     push(&|d| d.sink.capacity = None);
     push(&|d| d.sink.fail_at_chunk = None);
     if c.sink.is_faulty() {
